@@ -197,8 +197,9 @@ class RectanglePixelRegion(PixelRegion):
 
         xy = self._lower_left_xy()
         xy = xy[0] - origin[0], xy[1] - origin[1]
-        width = self.width
-        height = self.height
+        # float: matplotlib halves and negates the sizes in their own dtype
+        width = float(self.width)
+        height = float(self.height)
         # matplotlib expects rotation in degrees (anti-clockwise)
         angle = self.angle.to('deg').value
 
@@ -303,11 +304,11 @@ class RectanglePixelRegion(PixelRegion):
         """
         Return the x, y coordinate pairs that define the corners.
         """
-        corners = [(-self.width / 2, -self.height / 2),
-                   (self.width / 2, -self.height / 2),
-                   (self.width / 2, self.height / 2),
-                   (-self.width / 2, self.height / 2),
-                   ]
+        # float: the unary minus of an unsigned numpy integer size wraps
+        # around
+        w2 = float(self.width) / 2
+        h2 = float(self.height) / 2
+        corners = [(-w2, -h2), (w2, -h2), (w2, h2), (-w2, h2)]
         rotmat = [[np.cos(self.angle), np.sin(self.angle)],
                   [-np.sin(self.angle), np.cos(self.angle)]]
 
